@@ -29,6 +29,11 @@ from streamz import Stream              # noqa: E402
 import streamz                          # noqa: E402
 
 
+class Feeder(Stream):
+    """a plain, loop-less entry point connected in front of the pipeline: its emit() calls the pipeline synchronously and drops
+    whatever awaitables come back (like collect().flush(), or any caller that does not wait)"""
+
+
 class Scenario:
     def __init__(self, cfg):
         self.cfg = cfg
@@ -115,6 +120,11 @@ class Scenario:
             self.probes = [aprobe.Probe(node, self.log, mode=m, pid=i + 1) for i, m in enumerate(cfg.get("cons", ["future"]))]
         if k in ("j_zip_latest", "j_combine_latest"):
             self.other.emit(0)              # the other input has a value before any consumer exists
+        self.feeders = None
+        if cfg.get("feeder") == "plain":
+            self.feeders = [Feeder() for _ in self.sources]
+            for f, s_ in zip(self.feeders, self.sources):
+                f.connect(s_)
         self.next_elem = 0
         self.idle_steps = 0      # consecutive loop iterations without an observable event (busy-wait detection)
         self.tags = {}
@@ -226,7 +236,7 @@ class Scenario:
     def _emit(self, src, e):
         self.log.ev  # noqa
         self.log.add("src", e=e, src=src + 1)
-        aprobe.do_emit(self.log, self.sources[src], e, self.payload(e), [self.tags[e]])
+        aprobe.do_emit(self.log, (self.feeders or self.sources)[src], e, self.payload(e), [self.tags[e]])
 
     def enabled(self, c, arg=None, max_elems=4):
         loop, log = self.loop, self.log
@@ -305,6 +315,25 @@ class Scenario:
         vloop.uninstall(self.loop)
 
 
+def plain_view(evs):
+    """With a Feeder in front, the bracket that surrounds the pipeline's update() is the feeder's; the bracket of the
+    pipeline's own entry node lies inside it.  Present the log as the specifications see a pipeline: the outermost bracket
+    is "the upstream's", the inner one is removed (counts in between are one lower)."""
+    inner = {}          # tag -> inside the entry node's bracket
+    out = []
+    for ev in evs:
+        if ev["ev"] in ("retain", "release") and ev.get("site", "").endswith("Stream._emit@source"):
+            inner[ev["tag"]] = ev["ev"] == "retain"
+            continue
+        if ev["ev"] in ("retain", "release"):
+            if inner.get(ev["tag"]):
+                ev["count"] -= 1
+            if ev.get("site", "").endswith("Stream._emit@Feeder"):
+                ev["site"] = ev["site"].replace("@Feeder", "@source")
+        out.append(ev)
+    evs[:] = out
+
+
 def run(cfg, schedule):
     sc = Scenario(cfg)
     try:
@@ -313,6 +342,8 @@ def run(cfg, schedule):
             if sc.enabled(c, arg, cfg.get("max_elems", 4)):
                 sc.op(c, arg)
         sc.drain()
+        if cfg.get("feeder") == "plain":
+            plain_view(sc.log.ev)
         if cfg.get("falsy"):
             for ev in sc.log.ev:
                 if ev["ev"] == "deliver" and "rawx" in ev:
